@@ -6,6 +6,7 @@ From Dimod Require Model.Adj Model.Expr Proofs.AdjEnergy Model.EnergyCy Proofs.E
 From Dimod Require Model.DqmLoop Proofs.DqmLoopFacts Model.HPolyLoop Proofs.HPolyLoopFacts Model.PyBqm Proofs.PyBqmFacts.
 From Dimod Require Gen.Gen_View Model.ViewOps Proofs.ViewOpsFacts.
 From Dimod Require Gen.Gen_AsSamples Model.AsSamples Proofs.AsSamplesFacts.
+From Dimod Require Gen.Gen_LoopShapes.
 Import ListNotations.
 Open Scope Qc_scope.
 
@@ -411,3 +412,8 @@ Example C01_example_cy_loop :
     (Adj.mkQM [qc 2 1; qc 0 1] [[(0%nat, qc 3 1); (1%nat, qc 5 1)]; [(0%nat, qc 5 1)]] (qc 1 2) [INTEGER; INTEGER])
     [7; 9]%nat [9; 4; 7]%nat [[qc 2 1; qc 100 1; qc 3 1]] = Some [qc 127 2].
 Proof. vm_compute. reflexivity. Qed.
+
+(* the loops the code-shaped models mirror are textually the ones the models were proved against
+   (translators/loop_shapes.py fails, and with it this build, as soon as one of them is edited) *)
+Example C01_mirrored_loops_pinned : length Gen_LoopShapes.gen_pinned_loops = 15%nat.
+Proof. reflexivity. Qed.
